@@ -754,6 +754,11 @@ class C09(PropertyCheck):
         elif not math.isfinite(val):
             fail = f"{name} returned {val!r} on histogram {H.tolist()}"
         line, obs = self._measure_obs(name, H, D, renorm, sm, val)
+        if name in ("cc", "cr", "crl1") and ((H.sum(1) > 0).sum() <= 1 or (H.sum(0) > 0).sum() <= 1):
+            # all the mass in one row or one column: a variance is exactly zero and the correlation is 0/0 -
+            # the float result is decided by rounding noise over the TINY clamp, not by the definition
+            line, obs = None, None
+            tags.append("degenerate-variance-not-compared")
         return {"lines": [line] if line else [], "impl": [obs] if line else [], "oracle": fail,
                 "nontrivial": bool((H > 0).sum() >= 2), "tags": tags, "mutated": mut}
 
